@@ -162,7 +162,8 @@ func zzH18_encode_dict() {
 	k1 := zzPrintable("k1", 1)
 	k2 := zzPrintable("k2", 1)
 	zzAssume(k1[0] != k2[0])
-	zzAssume(zzAnd(zzAnd(k1[0] != '"', k1[0] != '\\'), zzAnd(k2[0] != '"', k2[0] != '\\')))
+	q1, e1 := zzRefQuote(k1) // keys may be '"' or '\\': they must come out escaped
+	q2, e2 := zzRefQuote(k2)
 	v1, t1, _ := zzScalar("v1", 1, true)
 	v2 := starlark.Value(starlark.NewList([]starlark.Value{starlark.None}))
 	t2 := "[null]"
@@ -176,11 +177,11 @@ func zzH18_encode_dict() {
 	}
 	var want string
 	if k1[0] < k2[0] {
-		want = `{"` + k1 + `":` + t1 + `,"` + k2 + `":` + t2 + `}`
+		want = `{` + q1 + `:` + t1 + `,` + q2 + `:` + t2 + `}`
 	} else {
-		want = `{"` + k2 + `":` + t2 + `,"` + k1 + `":` + t1 + `}`
+		want = `{` + q2 + `:` + t2 + `,` + q1 + `:` + t1 + `}`
 	}
-	zzCheckEncode(d, want, true, d)
+	zzCheckEncode(d, want, !e1 && !e2, d)
 	zzReach("end")
 }
 
@@ -190,7 +191,8 @@ func zzH18_encode_struct() {
 	k1 := zzPrintable("k1", 1)
 	k2 := zzPrintable("k2", 1)
 	zzAssume(k1[0] != k2[0])
-	zzAssume(zzAnd(zzAnd(k1[0] != '"', k1[0] != '\\'), zzAnd(k2[0] != '"', k2[0] != '\\')))
+	q1, e1 := zzRefQuote(k1) // field names given through **kwargs may contain '"' or '\\'
+	q2, e2 := zzRefQuote(k2)
 	v1, t1, _ := zzScalar("v1", 1, true)
 	v2, t2, _ := zzScalar("v2", 2, true)
 	st := starlarkstruct.FromKeywords(starlarkstruct.Default, []starlark.Tuple{
@@ -200,11 +202,11 @@ func zzH18_encode_struct() {
 	back.SetKey(starlark.String(k2), v2)
 	var want string
 	if k1[0] < k2[0] {
-		want = `{"` + k1 + `":` + t1 + `,"` + k2 + `":` + t2 + `}`
+		want = `{` + q1 + `:` + t1 + `,` + q2 + `:` + t2 + `}`
 	} else {
-		want = `{"` + k2 + `":` + t2 + `,"` + k1 + `":` + t1 + `}`
+		want = `{` + q2 + `:` + t2 + `,` + q1 + `:` + t1 + `}`
 	}
-	zzCheckEncode(st, want, true, back)
+	zzCheckEncode(st, want, !e1 && !e2, back)
 	zzReach("end")
 }
 
